@@ -153,6 +153,10 @@ def gen(rng, tier, ctx):
     cfg = {"klass": klass}
     if rng.random() < 0.12:
         cfg["locale"] = rng.choice(["cp1252", "ascii", "latin-1"])      # default text encoding of the machine
+    if rng.random() < 0.15:
+        # two generator runs at the same time in this folder (a parallel parameter sweep)
+        small = [dict(q, width=min(q["width"], 4), length=min(q["length"], 4)) for q in psets]
+        opl.insert(rng.randrange(len(opl) + 1), genops.make_pair(rng, rng.choice(small), rng.choice(small)))
     return {"cfg": cfg, "ops": opl}
 
 
@@ -247,6 +251,19 @@ def execute(spec, w, ctx):
             w.fired("planted-" + op["kind"])
             events.append([i_op, "plant", rel, op["kind"], len(text)])
             shapes.append("p" + op["kind"][0])
+            continue
+        if kind == "gen_pair":
+            out_a, res_b, before_p, after_p = genops.run_gen_pair(w, op)
+            events.append([i_op, "gen_pair", out_a["status"], res_b["status"]])
+            shapes.append("P")
+            pb_ = genops.pair_problem(ctx, op, out_a, res_b, before_p, after_p)
+            if pb_ is not None:
+                if fail(viol("I11.1", i_op, pb_[1], pb_[0])):
+                    break
+            else:
+                nontrivial = True
+                for k_ in genops.game_files([k for k in after_p if before_p.get(k) != after_p.get(k)]):
+                    written[k_] = True
             continue
         if kind not in ("gen_cli", "gen_manual"):
             continue
